@@ -222,12 +222,14 @@ IsDenomMsg(m) == m.type \in {"pnft.CreateDenom", "pnft.UpdateDenom", "pnft.Delet
 IsTokenMsg(m) == m.type \in {"pnft.Mint", "pnft.Transfer", "pnft.Burn"}
 
 \* accounts that own denom id at some point while the (fully successful) transaction runs
-DenomOwnersAlong(msgs, id, pre) ==
-    pre \cup {msgs[j].to : j \in {x \in DOMAIN msgs : msgs[x].type = "pnft.TransferDenom" /\ msgs[x].id = id}}
-        \cup {msgs[j].actor : j \in {x \in DOMAIN msgs : msgs[x].type = "pnft.CreateDenom" /\ msgs[x].id = id}}
-TokenOwnersAlong(msgs, k, pre) ==
-    pre \cup {msgs[j].to : j \in {x \in DOMAIN msgs : msgs[x].type = "pnft.Transfer" /\ msgs[x].denom = k[1] /\ msgs[x].id = k[2]}}
-        \cup {msgs[j].actor : j \in {x \in DOMAIN msgs : msgs[x].type = "pnft.Mint" /\ msgs[x].denom = k[1] /\ msgs[x].id = k[2]}}
+\* who may have become the owner by the time message i runs: the owner before the transaction, or a receiver / creator named by an EARLIER message
+\* of the same transaction (never by message i itself: "transfer to myself" confers nothing)
+DenomOwnersAlong(msgs, i, id, pre) ==
+    pre \cup {msgs[j].to : j \in {x \in DOMAIN msgs : x < i /\ msgs[x].type = "pnft.TransferDenom" /\ msgs[x].id = id}}
+        \cup {msgs[j].actor : j \in {x \in DOMAIN msgs : x < i /\ msgs[x].type = "pnft.CreateDenom" /\ msgs[x].id = id}}
+TokenOwnersAlong(msgs, i, k, pre) ==
+    pre \cup {msgs[j].to : j \in {x \in DOMAIN msgs : x < i /\ msgs[x].type = "pnft.Transfer" /\ msgs[x].denom = k[1] /\ msgs[x].id = k[2]}}
+        \cup {msgs[j].actor : j \in {x \in DOMAIN msgs : x < i /\ msgs[x].type = "pnft.Mint" /\ msgs[x].denom = k[1] /\ msgs[x].id = k[2]}}
 
 PreDenomOwner(id) == IF id \in DOMAIN pnDenoms THEN {pnDenoms[id].owner} ELSE {}
 PreTokenOwner(k)  == IF k \in DOMAIN pnTokens THEN {pnTokens[k].owner} ELSE {}
@@ -240,7 +242,7 @@ C06_Step ==
              /\ \E i \in MsgIdx(act') : LET m == act'.tx.msgs[i] IN
                    /\ IsDenomMsg(m) /\ m.id = id
                    /\ Authorised(act'.tx, m.actor, m.type)
-                   /\ (m.type # "pnft.CreateDenom" => m.actor \in DenomOwnersAlong(act'.tx.msgs, id, PreDenomOwner(id)))
+                   /\ (m.type # "pnft.CreateDenom" => m.actor \in DenomOwnersAlong(act'.tx.msgs, i, id, PreDenomOwner(id)))
     \* ownership of a denom changes only through a hand-over by the owner
     /\ \A id \in DOMAIN pnDenoms \cap DOMAIN pnDenoms' :
           pnDenoms'[id].owner # pnDenoms[id].owner =>
@@ -254,8 +256,8 @@ C06_Step ==
                    /\ IsTokenMsg(m) /\ <<m.denom, m.id>> = k
                    /\ Authorised(act'.tx, m.actor, m.type)
                    /\ IF m.type = "pnft.Mint"
-                      THEN m.actor \in DenomOwnersAlong(act'.tx.msgs, k[1], PreDenomOwner(k[1]))
-                      ELSE m.actor \in TokenOwnersAlong(act'.tx.msgs, k, PreTokenOwner(k))
+                      THEN m.actor \in DenomOwnersAlong(act'.tx.msgs, i, k[1], PreDenomOwner(k[1]))
+                      ELSE m.actor \in TokenOwnersAlong(act'.tx.msgs, i, k, PreTokenOwner(k))
     \* every accepted token/denom message was authorised by the actor it names
     /\ DeliverOk(act') => \A i \in MsgIdx(act') : LET m == act'.tx.msgs[i] IN
           (IsDenomMsg(m) \/ IsTokenMsg(m)) => Authorised(act'.tx, m.actor, m.type)
